@@ -2,7 +2,9 @@ package main
 
 import (
 	"encoding/binary"
+	"encoding/json"
 	"fmt"
+	"os"
 	"sync"
 	"sync/atomic"
 	"time"
@@ -580,6 +582,18 @@ func c34RunCase(r *vkit.Run, cs *c34Case) (res c34Result) {
 				}
 			}
 			idle++
+			if os.Getenv("VH2_DEBUG") != "" {
+				snap, alive := tc.vc.OnServe()
+				c.mu.Lock()
+				fmt.Fprintf(os.Stderr, "STUCK conn=%d win=%v recvd=%v ended=%v rstSent=%v rstAcked=%v setPend=%v srvRST=%v ids=%v\n  alive=%v snap=%+v\n", c.conn, c.win, c.recvd, c.ended, c.rstSent, c.rstAcked, c.setPend, c.srvRST, ids, alive, snap)
+				c.mu.Unlock()
+				evs := tc.cli.Events()
+				for k := len(evs) - 6; k < len(evs); k++ {
+					if k >= 0 {
+						fmt.Fprintf(os.Stderr, "   ev %s\n", trunc(evs[k].String(), 120))
+					}
+				}
+			}
 			if stuck || idle > 2 {
 				res.why = "no progress within safety timeout"
 				break
@@ -696,12 +710,16 @@ func c34(r *vkit.Run) {
 	}
 	n := envN(r.N(700, 7000))
 	var neg, resets, big int64
-	vkit.Parallel(n, 32, func(i int) {
+	vkit.Parallel(n, 64, func(i int) {
 		cs := c34Gen(r, i)
 		res := c34RunCase(r, cs)
 		r.CaseS(fmt.Sprintf("%+v", *cs), res.ok && res.nontriv)
 		if res.why != "" {
 			r.Count("incomplete:"+res.why, 1)
+			if os.Getenv("VH2_DEBUG") != "" {
+				b, _ := json.Marshal(cs)
+				fmt.Fprintf(os.Stderr, "INCOMPLETE %s %s\n", res.why, trunc(string(b), 1500))
+			}
 		}
 		if res.negSeen {
 			atomic.AddInt64(&neg, 1)
